@@ -668,6 +668,8 @@ def tensor_method(it, base: VTensor, name, args, kwargs, node):
         return function(it, "torch." + name, [base] + list(args), kwargs, None, node)
     if name == "requires_grad_":
         return base
+    if name == "norm" and not args and not kwargs:
+        return VScalar(Coef.sym("norm(.)"))
     raise Unmodelled(f"tensor method {name}")
 
 
